@@ -4,3 +4,4 @@ pub mod header;
 pub mod events;
 pub mod time;
 pub mod framer;
+pub mod assembler;
